@@ -86,7 +86,7 @@ func runOneMutant(c *Ctx, pd *propDef, m mutation) (out struct {
 			defer func() {
 				if r := recover(); r != nil {
 					if cf, ok := r.(checkFailure); ok {
-						if sub.All == nil {
+						if !sub.loaded {
 							loadFailed = cf.msg
 						} else {
 							broken = cf.msg
